@@ -156,6 +156,7 @@ func toJSON(v any) (string, error) {
 }
 
 type listenRec struct {
+	flip     bool // this listener asked for the opposite options
 	lc, lr   int64
 	ok       bool
 	stopCall int64
@@ -215,6 +216,9 @@ func (s *CatSc) checkIn(ro runOut, st *core.Stats, add func(clause, key, format 
 			}
 		case "listen":
 			l := &listenRec{lc: c.start, lr: c.end, stopCall: inf, stopRet: inf}
+			if c.idx >= 0 && c.idx < len(s.InOps) && s.InOps[c.idx].M == 1 {
+				l.flip = true
+			}
 			listeners[c.info] = l
 			if !open && s.ViaListenTo {
 				// midi.ListenTo opens the port first
@@ -337,8 +341,8 @@ func (s *CatSc) checkIn(ro runOut, st *core.Stats, add func(clause, key, format 
 			add("in-delivery", "altered", "listener #%d received (%d, % X), which is no record the helper emitted", j, e.b, []byte(e.s))
 			return
 		}
-		if s.filtered(k) {
-			add("listen-options", "filtered-class-delivered", "listener #%d received % X although its class is switched off (active_sense=%v timing_clock=%v sysex=%v)", j, []byte(e.s), s.ActiveSense, s.TimeCode, s.SysEx)
+		if lj := listeners[j]; s.filteredFor(k, lj != nil && lj.flip) {
+			add("listen-options", "filtered-class-delivered", "listener #%d received % X although its class is switched off (scenario options active_sense=%v timing_clock=%v sysex=%v, this listener asked for the opposite: %v)", j, core.Trunc(fmt.Sprintf("% X", []byte(e.s)), 60), s.ActiveSense, s.TimeCode, s.SysEx, lj != nil && lj.flip)
 			return
 		}
 		if s.Mix && len(e.s) > 0 && (e.s[0] == 0xFE || e.s[0] == 0xF8 || e.s[0] == 0xF0) {
@@ -385,7 +389,7 @@ func (s *CatSc) checkIn(ro runOut, st *core.Stats, add func(clause, key, format 
 			if ed[k] == 0 {
 				continue
 			}
-			if s.filtered(k) {
+			if s.filteredFor(k, l.flip) {
 				st.Probe("in:record-of-a-switched-off-class")
 				continue
 			}
